@@ -2031,7 +2031,9 @@ class FST:
         if is_root:
             return self._get_src(loc.ln, loc.col, loc.end_ln, loc.end_col, True)  # note, elif cannot exist at root so we don't check for it
 
-        if docstr is None:
+        if self.a.__class__ not in ASTS_LEAF_STMTLIKE_OR_MOD:  # docstring is the Expr statement, a string Constant on its own is just an expression and its lines are its value
+            docstr = False
+        elif docstr is None:
             docstr = FST.get_option('docstr')
 
         key = 'ownlS' if docstr == 'strict' else 'ownlT' if docstr else 'ownlF'
